@@ -59,6 +59,23 @@ def run_case(case, rng):
     case.params = dict(rep=rep, eps=eps, cap=cap, placeholder=ph, gamma=sp.gamma,
                        n=len(sp.states), label_kind=sp.meta.get("label_kind"))
     mdp = Bd.build(sp, rep, shuffle_rng=rng)
+    if rng.random() < 0.15:
+        # an MDP handed over as matrices whose transition array is DENSE: rows of unavailable actions hold a
+        # (meaningless) distribution too and only the action matrix says they are unavailable
+        from msdm.core.mdp import TabularMarkovDecisionProcess
+        S0, A0 = list(sp.states), sp.action_universe()
+        a0 = Rf.Arr(sp, states=S0, actions=A0)
+        Td = a0.T.copy()
+        for i in range(len(S0)):
+            for j in range(len(A0)):
+                if not a0.avail[i, j]:
+                    Td[i, j, rng.randrange(len(S0))] = 1.0
+        mdp = TabularMarkovDecisionProcess.from_matrices(
+            state_list=tuple(S0), action_list=tuple(A0), initial_state_vec=a0.init.copy(), transition_matrix=Td,
+            action_matrix=a0.avail.astype(float), reward_matrix=a0.R.copy(),
+            absorbing_state_vec=a0.flag.copy(), discount_rate=sp.gamma)
+        rep = "from_matrices_dense"
+        case.params["rep"] = rep
 
     S = case.call("state_list", lambda: list(mdp.state_list))
     A = case.call("action_list", lambda: list(mdp.action_list))
@@ -247,8 +264,7 @@ def run_case(case, rng):
     pi = PolicyIteration(max_iterations=pi_cap, undefined_value=ph)
     res = case.call("pi.plan_on", pi.plan_on, mdp, facts=facts_pi)
     case.count("pi_calls")
-    if res is not case.FAIL:
-        judge("pi", res, None, True, pi_cap if pi_cap < 1000 else 10 ** 9)
+    res_pi_single = res        # judged only AFTER the same planner has solved a same-shape batch (below)
 
     # batch entry point: same-shape sibling MDPs (explicit identical lists)
     sp2 = copy.deepcopy(sp)
@@ -262,6 +278,9 @@ def run_case(case, rng):
         m._state_list = tuple(S)
         m._action_list = tuple(A)
         sib.append(m)
+    # the same planner solves a same-shape problem right after the judged one (an earlier result must not alias
+    # scratch memory of a later call); the judged result is read only at the very end
+    case.call("pi.plan_on(sibling)", pi.plan_on, sib[1], facts=facts_pi)
     order = [0, 1] if rng.random() < 0.5 else [1, 0]
     batch = [sib[k] for k in order]
     resb = case.call("pi.batch_plan_on", pi.batch_plan_on, batch, facts=facts_pi)
@@ -278,6 +297,8 @@ def run_case(case, rng):
                 if sol2.ok:
                     _judge_sibling(case, r, arr2, sol2, pinned2, sp2, Rd)
 
+    if res_pi_single is not case.FAIL:
+        judge("pi", res_pi_single, None, True, pi_cap if pi_cap < 1000 else 10 ** 9)
     ch = purity.changed()
     case.check(not ch, "purity:mdp-arrays-mutated", f"changed: {ch}")
 
